@@ -41,12 +41,14 @@ static void verif_case(unsigned nodes, unsigned gnot, unsigned nnot, int match, 
 
 	if (gi >= 0 && HG[gi].present) {
 		void *oldv = HG[gi].value;
+#ifndef V_REMOVED
 		COVER(HG_n == 3 && gi == 1);
 		COVER(HG_n == 1);
 		COVER(HG[gi].notidx >= 0 && HG_gnot == 2);
 		COVER(HG[gi].notidx < 0 && HG_gnot == 0);
 		COVER(HG[gi].iters == 1);
 		COVER(HG[gi].iters == 0);
+#endif
 		POST(r != QB_FALSE, "remove reports success when the key was present");
 		HG[gi].present = 0;
 		if (HG[gi].iters == 0) {
